@@ -7,7 +7,8 @@ collides with column names, with each other, with the ``a_1`` / ``anon_1`` / ``t
 SQLAlchemy generates itself), anonymous expressions, literals, literal_column, functions,
 CAST / type_coerce, unary minus and repeated elements; three label styles;
 wrapped in subqueries / CTEs, UNIONs, ``text().columns()`` (positional, by name, none);
-on engines with label_length None/6/10/30; each statement built twice with fresh
+``text("SELECT * ...").columns(name=type)`` re-executed while the table is re-created with
+another column order; on engines with label_length None/6/10/30; each statement built twice with fresh
 objects so that the second execution goes through the compiled cache and
 ``CursorResultMetaData._adapt_to_context``.  SQLite executes everything.
 
@@ -23,8 +24,9 @@ Oracle per row:
   (ambiguous) is accepted only if the element or its bare column occurs at >= 2
   positions; ``NoSuchColumnError`` for a selected element is a violation;
 * string keys (result.keys(), explicit label names, column names, tablename_column
-  forms): a returned value must be the expected value of a position that carries that
-  name; a user-visible name that result.keys() lists twice for different values must
+  forms): a returned value must be the expected value of a position that result.keys()
+  lists under that name, or - if keys() does not list it - of a position that carries
+  it as a secondary name; a user-visible name that result.keys() lists twice for different values must
   raise; an explicit label / key carried by exactly one position (and not being the
   ``selected_columns`` key of another one - ambiguous by design, see
   test_keyed_accessor_composite_conflict_2) must resolve;
@@ -60,12 +62,14 @@ META = {
     "soft_s": {"quick": 45, "thorough": 800},
     "exhaustive": {"quick": False, "thorough": False},
     "require": ["object_lookups", "string_lookups", "positional_checks", "ambiguous_raised", "cached_executions",
-                "name_collisions", "truncated_names", "text_statements", "union_statements", "wrapped_statements", "rows_checked"],
+                "name_collisions", "truncated_names", "text_statements", "union_statements", "wrapped_statements", "rows_checked", "star_reorders"],
     "assumptions": ["SQLite evaluates integer addition and joins correctly"],
 }
 
 LONG = ["very_long_column_name_number_one_a", "very_long_column_name_number_one_b"]
-COLS = ["id", "a", "b", "x"] + LONG
+# "t_id" / "u_a": column names that equal the <table>_<column> label of a column of another table
+# (the FK naming pattern): a *primary* result name that is also a *secondary* name of another column
+COLS = ["id", "a", "b", "x"] + LONG + ["t_id", "u_a"]
 TABLES = ["t", "u", "a_rather_long_table_name_for_labels"]
 NROWS = 3
 M = 1_000_000
@@ -149,7 +153,8 @@ class Gen:
         k = r.choice(kinds)
         if k == "dup" and not prev:
             k = "col"
-        sc = r.choice(pool)
+        # columns taking part in the <table>_<col> naming pattern are drawn three times as often
+        sc = r.choice(pool + [x for x in pool if x.name in ("id", "a", "t_id", "u_a")] * 2)
         if k == "col":
             return El(sc.obj, k, sc.exp, None, sc)
         if k == "label":
@@ -372,9 +377,13 @@ def check_rows(ctx, sa, rows, keys, els, decoders, extra_objs, desc, cached, tex
                 raised = "ambiguous"
                 ctx.count("ambiguous_raised")
             if raised is None:
-                if not any(want[j] == got for j in carriers):
+                # the names result.keys() advertises take precedence over secondary names
+                # (<table>_<col> labels, column names behind labels) of other columns
+                allowed = keypos if keypos else carriers
+                if not any(want[j] == got for j in allowed):
                     where = [j for j in range(n) if want[j] == got]
-                    kinds = sorted({els[j].kind for j in carriers})
+                    kinds = sorted({els[j].kind for j in allowed})
+                    carriers = allowed
                     ctx.violation("dedupe-proxy-key-shadows-result-key" if shadowed(s, carriers, els) else "string-key-foreign-value:" + "+".join(kinds) + (":text" if textual else ""),
                                   f"{tag}: _mapping[{s!r}] returned {got} = value of position {where}, but the name belongs to {carriers}",
                                   dict(desc, key=s, keys=list(keys)))
@@ -482,6 +491,59 @@ def to_text(sa, built, eng, rng):
     return built
 
 
+STAR_NAMES = ["a", "b", "id", "x", "t_id", LONG[0], LONG[1], "my col", "A1"]
+
+
+def star_case(ctx, sa, eng, rng, seq):
+    """``text("SELECT * FROM tbl").columns(name=type, ...)``: matched to cursor.description *by name*
+    on every execution.  The same statement text is executed (fresh TextualSelect, compiled-cache
+    hit) while the table is re-created with another physical column order in between."""
+    names = rng.sample(STAR_NAMES, rng.randint(2, 6))
+    vals = {nm: 700_000_000 + seq * 1000 + i for i, nm in enumerate(names)}
+    tb = "star_%d" % (seq % 3)
+    mixed = rng.random() < 0.3
+    q = lambda x: '"%s"' % x
+    with eng.connect() as conn:
+        for rnd in range(3):
+            order = list(names)
+            if rnd:
+                rng.shuffle(order)
+            conn.exec_driver_sql(f"DROP TABLE IF EXISTS {tb}")
+            conn.exec_driver_sql(f"CREATE TABLE {tb} ({', '.join(q(c) + ' INTEGER' for c in order)})")
+            conn.exec_driver_sql(f"INSERT INTO {tb} ({', '.join(q(c) for c in order)}) VALUES ({', '.join(str(vals[c]) for c in order)})")
+            pos = [sa.column(names[0], sa.Integer)] if mixed else []
+            kw = {nm: sa.Integer for nm in names[len(pos):]}
+            stmt = sa.text(f"SELECT * FROM {tb}").columns(*pos, **kw)
+            res = conn.execute(stmt)
+            keys = list(res.keys())
+            row = res.one()
+            ctx.count("star_executions")
+            if rnd and order != names:
+                ctx.count("star_reorders")
+            desc = {"how": "text_star", "names": names, "cursor_order": order, "round": rnd, "keys": keys, "mixed": mixed}
+            m = row._mapping
+            sel = {c.name: c for c in stmt.selected_columns}
+            for nm in names:
+                ctx.count("string_lookups")
+                ctx.count("object_lookups")
+                try:
+                    got_s, got_o = m[nm], m[sel[nm]]
+                except (sa.exc.NoSuchColumnError, sa.exc.InvalidRequestError) as e:
+                    ctx.violation("text-byname-lookup-refused", f"round {rnd}: {nm!r} -> {type(e).__name__}", desc)
+                    break
+                if got_s != vals[nm] or got_o != vals[nm]:
+                    ctx.violation("text-byname-stale-positions" if rnd else "text-byname-wrong-value",
+                                  f"round {rnd} (cursor order {order}): by string {nm!r} -> {got_s}, by column -> {got_o}, expected {vals[nm]}", desc)
+                    break
+            else:
+                if [vals.get(k) for k in keys] != list(tuple(row)):
+                    ctx.violation("text-byname-keys-misaligned", f"round {rnd}: keys {keys} do not name the positions of {tuple(row)}", desc)
+            conn.rollback()
+        conn.exec_driver_sql(f"DROP TABLE IF EXISTS {tb}")
+        conn.commit()
+    ctx.case({"star": seq, "names": names, "shard": ctx.shard}, nontrivial=True)
+
+
 def run(ctx):
     import warnings
 
@@ -501,6 +563,8 @@ def run(ctx):
             how = hows[k % len(hows)]
             seed = rng.randrange(1 << 40)
             ll, eng = engines[k % len(engines)] if k < 40 else rng.choice(engines)
+            if k % 5 == 0:
+                star_case(ctx, sa, eng, rng, k)
             tseed = rng.randrange(1 << 40)
             nontriv = False
             for rnd in range(2):
